@@ -515,6 +515,21 @@ func c36Run(t *testing.T, ci any, trace bool) *verifsim.Result {
 						sort.Ints(bs)
 						s.Logf("peer %d msg#%d ledger %v -> %v", pi, mi, bs, as)
 					}
+					if m.Full {
+						// a full want-list replaces the old one: nothing the message does not
+						// itself ask for may remain queued for the peer (its messages are
+						// delivered one after the other, nobody else adds wants for it)
+						for _, w := range after {
+							b, ok := index[w.Cid.KeyString()]
+							if !ok {
+								continue
+							}
+							if en, asked := effective[b]; !asked || en.Cancel {
+								s.Failf("full-wantlist-kept-old-want", "after the full want-list message #%d of peer %d (%s) the peer's queued want-list still has block #%d, which that message does not ask for", mi, pi, c36Describe(msg, index), b)
+								return
+							}
+						}
+					}
 					if len(after) > c.Limit {
 						s.Failf("wantlist-over-limit", "after message #%d of peer %d its queued want-list has %d entries, the limit is %d", mi, pi, len(after), c.Limit)
 						return
